@@ -172,10 +172,13 @@ def models():
             return some(DateC(r, d.h, d.m, d.s))
         return none()
 
-    @reg(r'^<NaiveDate as (Sub|Add)<TimeDelta>>::(sub|add)$', 'chrono:NaiveDate +/- days')
+    @reg(r'^<NaiveDate as (Sub|Add)<TimeDelta>>::(sub|add)$', 'chrono:NaiveDate +/- days (documented: panics when the date leaves the calendar)')
     def date_arith(ctx, args, callee):
         d = ctx.deref(args[0]); n = args[1][1]
-        return DateC(d.day - n if callee.endswith('sub') else d.day + n, d.h, d.m, d.s)
+        r = d.day - n if callee.endswith('sub') else d.day + n
+        span = BitVecVal(262000 * 365, 64)
+        ctx.obligation(And(n <= span, n >= -span, r <= span, r >= -span), '`NaiveDate + TimeDelta` overflowed')
+        return DateC(r, d.h, d.m, d.s)
 
     @reg(r'^parse_date_string$|^chrono_english::parse_date_string$', 'chrono-english:parse_date_string (Ok(some instant of its own choosing) | Err; contract: does not panic)')
     def pds(ctx, args, callee):
